@@ -19,6 +19,14 @@ The round trip `load spec (export d)` in the model of `generate_type_dict` / `mo
                         `name:` line (`located` — false for names `yaml.dump` quotes: `on`, `No`, `NULL`, …); a file is only
                         refused for an invalid document or an already registered name (`loadFile_ok_of_valid_fresh`).
 
+* `cppNameOk_joined`, `any_accepts`  value constraints of the model fields (`Field(pattern=…)`, Lean `Pat`): the one constrained field of
+                        the pinned tree (`jni.translator`) accepts every `::`-joined list of identifiers — letters, digits, underscores —
+                        with or without a leading `::`; every other string field accepts every string. That the live models constrain
+                        nothing else is the generated obligation `patterns_modelled`.
+* `round_history_free`, `runRounds_history_free`, `reexport_registered`  re-export histories (`Disk`, `Round`, `runRounds`): when a library is
+                        exported again and again to the same paths and pulled in again in one process, every round registers exactly what
+                        it registers alone on an empty disk (`read_after_write`, `loadPaths_congr`) — the loader has no memory.
+
 Which attributes dependants read, which are computed fields for which declaration kind, and which are model fields are
 tables regenerated from the live source; the inclusions `usedOk`, `exportedOk`, `requiredOk` over them are checked by
 `decide` in `Generated/C13_tables`.
@@ -236,7 +244,7 @@ def rbDecl : LocalDecl :=
     node := []
     marsh := [("cpp", [⟨"typename", .str "::RbBase", true⟩, ⟨"header", .str "rb_base.hpp", true⟩, ⟨"base_type", .bool true, false⟩,
                         ⟨"derived_header", .str "rb.hpp", true⟩])] }
-def cppSpec : ExtSpec := [("cpp", [⟨"typename", true, .null⟩, ⟨"header", false, .null⟩, ⟨"by_value", false, .bool false⟩])]
+def cppSpec : ExtSpec := [("cpp", [⟨"typename", true, .null, .any⟩, ⟨"header", false, .null, .any⟩, ⟨"by_value", false, .bool false, .any⟩])]
 
 /-- dependants of the local base record include `rb.hpp`, dependants of the loaded type `rb_base.hpp` (row 13) -/
 theorem base_record_header_counterexample :
@@ -359,11 +367,13 @@ theorem roundtrip_key (d : LocalDecl) (spec : ExtSpec) (e : ExtType) (hl : load 
     simp only [«export»] at e1 e2
     simp [registryKey, «export», e1, e2, h1, h2]
 
-/-- **export_validates**: if for every generator of the model every required field is a computed field with a value,
+/-- **export_validates**: if for every generator of the model every required field is a computed field with a value, and the exported
+    values of the constrained fields match their patterns (`cppNameOk_joined`: every `::`-joined list of identifiers does),
     the exported document passes `model_validate` -/
 theorem export_validates (d : LocalDecl) (spec : ExtSpec)
     (h : ∀ g fs, (g, fs) ∈ spec → ∀ ps, lookup g d.marsh = some ps →
-      ∀ f ∈ fs, f.required = true → ∃ p, findProp f.name ps = some p ∧ p.computed = true ∧ p.value.isNull = false) :
+      ∀ f ∈ fs, f.required = true → ∃ p, findProp f.name ps = some p ∧ p.computed = true ∧ p.value.isNull = false)
+    (hp : ∀ g fs, (g, fs) ∈ spec → ∀ ps, lookup g d.marsh = some ps → patsOk fs (exportProps ps) = true) :
     (load spec («export» d)).isSome = true := by
   unfold load
   suffices hs : (loadGens («export» d) spec).isSome = true by
@@ -374,7 +384,7 @@ theorem export_validates (d : LocalDecl) (spec : ExtSpec)
   | nil => simp [loadGens]
   | cons x rest ih =>
     obtain ⟨g, fs⟩ := x
-    have ihr := ih (fun g' fs' hm => h g' fs' (by simp [hm]))
+    have ihr := ih (fun g' fs' hm => h g' fs' (by simp [hm])) (fun g' fs' hm => hp g' fs' (by simp [hm]))
     unfold loadGens
     cases hd : lookup g («export» d).gens with
     | none =>
@@ -405,7 +415,7 @@ theorem export_validates (d : LocalDecl) (spec : ExtSpec)
             | true =>
               obtain ⟨p, hp1, hp2, hp3⟩ := h g fs (by simp) ps hm f hf hreq
               simp [lookup_exportProps ps f.name p hp1 hp2 hp3]
-          simp [hall]
+          simp [hall, hp g fs (by simp) ps hm]
       cases hlf : loadFields fs kv with
       | none => simp [hlf] at hfields
       | some vals =>
@@ -479,12 +489,179 @@ theorem export_registered (spec : ExtSpec) (ds : List LocalDecl) (reg : List Ent
   exact ⟨en, hen, hkey.trans hk'⟩
 
 /-- the quoted names are registered like the others (non-vacuity: `on` is not located, `level` is) -/
-def tinySpec : ExtSpec := [("cpp", [⟨"typename", true, .null⟩])]
+def tinySpec : ExtSpec := [("cpp", [⟨"typename", true, .null, .any⟩])]
 def tinyDoc (n : String) : Doc := { base := [("name", .str n), ("namespace", .list ["power"])], gens := [("cpp", [("typename", .str "T")])] }
 example : (match loadFile tinySpec [tinyDoc "on", tinyDoc "level"] [] with
     | .ok reg => reg.map (fun en => (en.key, en.located))
     | _ => []) = [((["power"], "on"), false), ((["power"], "level"), true)] := by decide +kernel
 example : loadFile tinySpec [tinyDoc "on", tinyDoc "on"] [] = .duplicate (["power"], "on") := by decide +kernel
+
+/-! ## the value constraint of the pinned tree accepts the whole alphabet of identifiers -/
+
+/-- an identifier of C++ (and of the IDL): a letter followed by letters, digits, underscores -/
+def identL : List Char → Bool
+  | [] => false
+  | c :: cs => isAlphaC c && cs.all isWordC
+
+def joinColons : List (List Char) → List Char
+  | [] => []
+  | [p] => p
+  | p :: q :: rest => p ++ ':' :: ':' :: joinColons (q :: rest)
+
+theorem nameRun_words (ws r : List Char) (h : ws.all isWordC = true) : nameRun .ident (ws ++ r) = nameRun .ident r := by
+  induction ws with
+  | nil => rfl
+  | cons c cs ih =>
+    simp only [List.all_cons, Bool.and_eq_true] at h
+    simp only [List.cons_append, nameRun, nameStep, h.1, if_true]
+    exact ih h.2
+
+theorem nameRun_ident (p r : List Char) (h : identL p = true) : nameRun .start (p ++ r) = nameRun .ident r := by
+  cases p with
+  | nil => simp [identL] at h
+  | cons c cs =>
+    simp only [identL, Bool.and_eq_true] at h
+    simp only [List.cons_append, nameRun, nameStep, h.1, if_true]
+    exact nameRun_words cs r h.2
+
+theorem colon_not_word : isWordC ':' = false := by decide
+
+theorem nameRun_joined (ps : List (List Char)) (hne : ps ≠ []) (h : ∀ p ∈ ps, identL p = true) :
+    nameRun .start (joinColons ps) = some .ident := by
+  induction ps with
+  | nil => exact absurd rfl hne
+  | cons p rest ih =>
+    cases rest with
+    | nil =>
+      have := nameRun_ident p [] (h p (by simp))
+      simpa [joinColons, nameRun] using this
+    | cons q qs =>
+      have hq := ih (by simp) (fun x hx => h x (by simp [hx]))
+      simp only [joinColons]
+      rw [nameRun_ident p _ (h p (by simp))]
+      simp only [nameRun, nameStep, colon_not_word, Bool.false_eq_true, if_false, if_true]
+      exact hq
+
+/-- the joined text does not start with a colon, so nothing is taken for the optional leading `::` -/
+theorem dropLead_joined (ps : List (List Char)) (hne : ps ≠ []) (h : ∀ p ∈ ps, identL p = true) :
+    dropLead (joinColons ps) = joinColons ps := by
+  cases ps with
+  | nil => exact absurd rfl hne
+  | cons p rest =>
+    have hp := h p (by simp)
+    cases p with
+    | nil => simp [identL] at hp
+    | cons c cs =>
+      simp only [identL, Bool.and_eq_true] at hp
+      have hc : c ≠ ':' := by
+        intro e; subst e
+        have : isAlphaC ':' = false := by decide
+        rw [this] at hp; exact absurd hp.1 (by simp)
+      cases rest with
+      | nil => simp only [joinColons]; unfold dropLead; split <;> simp_all
+      | cons q qs => simp only [joinColons, List.cons_append]; unfold dropLead; split <;> simp_all
+
+/-- **cppNameOk_joined**: the pattern of `jni.translator` accepts every `::`-joined non-empty list of identifiers — letters, digits and
+    underscores in any mixture behind a leading letter — with or without the leading `::`. (What the exporter writes: the configured JNI
+    namespace, the converted namespace of the declaration, the class name.) -/
+theorem cppNameOk_joined (ps : List (List Char)) (hne : ps ≠ []) (h : ∀ p ∈ ps, identL p = true) :
+    cppNameOk (joinColons ps) = true ∧ cppNameOk (':' :: ':' :: joinColons ps) = true := by
+  constructor
+  · simp [cppNameOk, dropLead_joined ps hne h, nameRun_joined ps hne h]
+  · simp [cppNameOk, dropLead, nameRun_joined ps hne h]
+
+/-- a field without a pattern takes every value: descriptors, type names and header paths with `_`, `$`, `-`, `.`, digits -/
+theorem any_accepts (v : Val) : Pat.any.accepts v = true := rfl
+
+example : cppNameOk "::geo_lib::jni_2::geo_data::j_geo_point".toList = true ∧ cppNameOk "Geo_Lib::Jni_2::Z9".toList = true
+    ∧ cppNameOk "a::2b".toList = false ∧ cppNameOk "a:b".toList = false ∧ cppNameOk "a::".toList = false ∧ cppNameOk "".toList = false
+    ∧ cppNameOk "::".toList = false ∧ cppNameOk "a$b".toList = false ∧ cppNameOk "_a".toList = false ∧ cppNameOk ":::a".toList = false := by decide +kernel
+example : Pat.any.accepts (.str "Lorg/x_y/z2_/geo_data/Outer$Inner;") = true := rfl
+
+/-! ## re-export histories: what a round registers does not depend on what the paths held before -/
+
+theorem lookup_append_left (a : String) (l r : List (String × List Doc)) (v : List Doc) (h : lookup a l = some v) :
+    lookup a (l ++ r) = some v := by
+  induction l with
+  | nil => simp [lookup] at h
+  | cons x rest ih =>
+    obtain ⟨k, w⟩ := x
+    by_cases hk : k = a
+    · subst hk
+      simp only [lookup, if_true, List.cons_append] at h ⊢
+      exact h
+    · simp only [lookup, hk, if_false, List.cons_append] at h ⊢
+      exact ih h
+
+/-- a file reads as it was written last -/
+theorem read_after_write (disk : Disk) (files : List (String × List Doc)) (p : String) (docs : List Doc)
+    (h : lookup p files = some docs) : (disk.write files).read p = some docs :=
+  lookup_append_left p files disk docs h
+
+/-- loading depends on the contents of the named files only -/
+theorem loadPaths_congr (spec : ExtSpec) (d₁ d₂ : Disk) (ps : List String) (reg : List Entry)
+    (h : ∀ p ∈ ps, d₁.read p = d₂.read p) : loadPaths spec d₁ ps reg = loadPaths spec d₂ ps reg := by
+  induction ps generalizing reg with
+  | nil => rfl
+  | cons p rest ih =>
+    unfold loadPaths
+    rw [h p (by simp)]
+    cases d₂.read p with
+    | none => rfl
+    | some docs =>
+      dsimp only
+      cases loadFile spec docs reg with
+      | ok reg' => exact ih reg' (fun q hq => h q (by simp [hq]))
+      | invalid => rfl
+      | duplicate k => rfl
+
+/-- **round_history_free**: a round that pulls in only files it has exported itself registers what it would register on an empty disk,
+    whatever the paths held before -/
+theorem round_history_free (spec : ExtSpec) (disk : Disk) (r : Round) (hc : r.closed = true) :
+    loadPaths spec (disk.write r.written) r.externs [] = r.alone spec := by
+  unfold Round.alone
+  apply loadPaths_congr
+  intro p hp
+  simp only [Round.closed, List.all_eq_true] at hc
+  have := hc p hp
+  cases hl : lookup p r.written with
+  | none => simp [hl] at this
+  | some docs =>
+    rw [read_after_write disk r.written p docs hl]
+    simp [Disk.read, hl]
+
+/-- **runRounds_history_free**: in a history of closed rounds — re-exports to the same paths under other naming configurations, with
+    edited declarations, in any order, after any earlier state of the directory — every round registers exactly what it registers alone -/
+theorem runRounds_history_free (spec : ExtSpec) (disk : Disk) (rs : List Round) (hc : ∀ r ∈ rs, r.closed = true) :
+    runRounds spec disk rs = rs.map (Round.alone spec) := by
+  induction rs generalizing disk with
+  | nil => rfl
+  | cons r rest ih =>
+    simp only [runRounds, List.map_cons]
+    rw [round_history_free spec disk r (hc r (by simp)), ih _ (fun x hx => hc x (by simp [hx]))]
+
+/-- a re-export registers the re-exported declarations: the second round of a history over one `out_file` path registers every
+    declaration of the second export under its qualified name (and nothing the path held before decides it) -/
+theorem reexport_registered (spec : ExtSpec) (disk : Disk) (path : String) (ds : List LocalDecl) (reg : List Entry)
+    (h : Round.alone spec { written := [(path, ds.map «export»)], externs := [path] } = some (.ok reg))
+    (d : LocalDecl) (hd : d ∈ ds) (ns : List String) (n : String)
+    (h1 : lookup "namespace" d.base.fields = some (.list ns)) (h2 : lookup "name" d.base.fields = some (.str n)) :
+    loadPaths spec (disk.write [(path, ds.map «export»)]) [path] [] = some (.ok reg) ∧ ∃ en ∈ reg, en.key = (ns, n) := by
+  have hfree := round_history_free spec disk { written := [(path, ds.map «export»)], externs := [path] } (by simp [Round.closed, lookup])
+  refine ⟨by rw [← h]; exact hfree, ?_⟩
+  have hf : loadFile spec (ds.map «export») [] = .ok reg := by
+    simp only [Round.alone, loadPaths, Disk.read, lookup, if_true] at h
+    cases hl : loadFile spec (ds.map «export») [] with
+    | ok reg' => simp only [hl, loadPaths, Option.some.injEq, FileResult.ok.injEq] at h; rw [h]
+    | invalid => simp [hl] at h
+    | duplicate k => simp [hl] at h
+  exact export_registered spec ds reg hf d hd ns n h1 h2
+
+/-- non-vacuity: two rounds over one path; the second round sees the second export -/
+example : (runRounds tinySpec [] [{ written := [("lib/all.yaml", [tinyDoc "point"])], externs := ["lib/all.yaml"] },
+                                  { written := [("lib/all.yaml", [tinyDoc "level"])], externs := ["lib/all.yaml"] }]).map
+      (fun r => match r with | some (.ok reg) => reg.map (·.key) | _ => []) = [[(["power"], "point")], [(["power"], "level")]] := by decide +kernel
+
 
 /-! ## the workspace of the dependent program: decoys further down the search order never win -/
 
